@@ -140,14 +140,20 @@ def run_case(case: dict) -> CaseResult:
         if n_open != expect_created_open:
             viol.append(V("c20:ownership:created-instance-" + ("left-open" if n_open > expect_created_open else "closed-early"), f"{where}: {n_open} library-created zeroconf instances open, expected {expect_created_open}"))
 
-    async def do_resolve(i: int, hosts: list):
-        exp, ml, ol, os_err = reference(hosts, world.mdns, case.get("dns") or {})
+    async def do_resolve(i: int, hosts: list, ctor_fail: bool = False):
+        broken = ctor_fail and model["inst"] is None
+        # (no instance yet and the library cannot create one: mDNS is unavailable for this call, every name goes to the OS)
+        exp, ml, ol, os_err = reference(hosts, {} if broken else world.mdns, case.get("dns") or {})
+        if broken:
+            ml = []
+            classes.add("zeroconf_creation_fails")
         n_l, n_d = len(world.lookups), len(env.dns_calls)
         forms = {form(h) for h in hosts}
         if len(forms) > 1:
             classes.add("mixed_forms")
         if any(form(h) in ("bare", "local") and h in ol for h in hosts):
             classes.add("fallback")
+        world.fail_create = bool(ctor_fail)
         try:
             got = await hr.async_resolve_host(list(hosts), PORT, manager)
             outcome = ("ok", flatten(got))
@@ -156,6 +162,8 @@ def run_case(case: dict) -> CaseResult:
         except BaseException as e:  # noqa: BLE001
             viol.append(V(f"c20:resolve:raised:{type(e).__name__}", f"op {i} hosts {hosts}: {e!r}"))
             return
+        finally:
+            world.fail_create = False
         where = f"op {i} resolve({hosts})"
         looked = [l[0].split(".")[0] for l in world.lookups[n_l:]]
         osl = [h for h, _ in env.dns_calls[n_d:]]
@@ -195,9 +203,21 @@ def run_case(case: dict) -> CaseResult:
         for i, op in enumerate(case["ops"]):
             o = op["op"]
             if o == "resolve":
-                await do_resolve(i, op["hosts"])
+                await do_resolve(i, op["hosts"], bool(op.get("ctor_fail")))
             elif manager is None:
                 continue
+            elif o == "get" and op.get("ctor_fail") and model["inst"] is None:
+                # the library cannot open mDNS sockets (no interface / container without host networking)
+                classes.add("zeroconf_creation_fails")
+                world.fail_create = True
+                try:
+                    manager.get_async_zeroconf()
+                    viol.append(V("c20:get:returned-although-creation-failed", f"op {i}"))
+                except OSError:
+                    pass
+                finally:
+                    world.fail_create = False
+                ledger(f"op {i} get (creation fails)", 0)
             elif o == "get":
                 manager.get_async_zeroconf()
                 if model["inst"] is None:
@@ -316,7 +336,7 @@ def run_case(case: dict) -> CaseResult:
 MDNS_HANG = {"outcome": "hang"}
 MDNS_OUT = [
     {"outcome": "ok", "v4": ["10.1.0.1"]}, {"outcome": "ok", "v6": ["fd00::aa"]}, {"outcome": "ok", "v4": ["10.1.0.1", "10.1.0.2"], "v6": ["fd00::aa", "fe80::5%2"]},
-    {"outcome": "none"}, {"outcome": "raise"}, {"outcome": "ok", "v4": [], "v6": []},
+    {"outcome": "none"}, {"outcome": "raise"}, {"outcome": "ok", "v4": [], "v6": []}, {"outcome": "ok", "v4": ["10.1.0.9"], "v6": ["fd00::a9"], "complete": True},
 ]
 DNS_OUT = [["ok", ["10.2.0.1"]], ["ok", ["fd00::bb", "10.2.0.2"]], ["ok", ["10.2.0.3", "10.2.0.4", "fd00::cc"]], ["empty"], ["error"]]
 
@@ -329,8 +349,12 @@ def _case(draw, tier):
         r = draw(st.integers(0, 9))
         if r <= 5 or not ops:
             ops.append({"op": "resolve", "hosts": draw(st.lists(st.sampled_from(pool), min_size=1, max_size=4))})
+            if draw(st.integers(0, 5)) == 3:
+                ops[-1]["ctor_fail"] = True
         elif r == 6:
             ops.append({"op": "get"})
+            if draw(st.integers(0, 2)) == 1:
+                ops[-1]["ctor_fail"] = True
         elif r == 7:
             ops.append({"op": "close"})
         elif r == 8:
@@ -350,6 +374,11 @@ def strategy(tier):
 
 
 def enumerated(tier):
+    # the library cannot create its own instance, later the application supplies one / creation works again
+    for first in ({"op": "get", "ctor_fail": True}, {"op": "resolve", "hosts": ["kitchen.local"], "ctor_fail": True}, {"op": "resolve", "hosts": ["kitchen", "10.0.0.5", "dev.example.com"], "ctor_fail": True}):
+        for then in ([{"op": "supply", "kind": "async"}, {"op": "close"}], [{"op": "supply", "kind": "sync"}, {"op": "resolve", "hosts": ["kitchen.local"]}, {"op": "close"}],
+                     [{"op": "get"}, {"op": "close"}], [{"op": "close"}, {"op": "resolve", "hosts": ["kitchen.local"]}], [{"op": "supply", "kind": "async"}, {"op": "rl", "tcp": "refuse", "pass_instance": True, "wait": 2, "address": "kitchen.local"}]):
+            yield {"manager": "empty", "mdns": {"kitchen": MDNS_OUT[0]}, "dns": {"kitchen.local": DNS_OUT[0], "kitchen": DNS_OUT[3], "dev.example.com": DNS_OUT[1]}, "ops": [first] + then}
     managers = ["none", "empty", "supplied_async", "supplied_sync"]
     # one host of every form x mDNS outcome x OS outcome
     for mgr in managers:
